@@ -38,7 +38,23 @@ func runC14(c *harness.Ctx, idx int) {
 	tc.ZooNest = r.Chance(1, 4)
 	tc.MaxFields = 6
 	var s *schema.Struct
-	if idx%4 == 0 {
+	if idx%4 == 1 {
+		// containers whose keys/elements are decoded right after a struct ending in a nocopy field
+		item := &schema.Struct{UnknownIdx: -1, Fields: []*schema.Field{
+			{ID: 1, Req: schema.Default, T: schema.Scalar(schema.I32)},
+			{ID: 2, Req: schema.Req(r.Intn(3)), T: schema.Scalar([]schema.Kind{schema.String, schema.Binary}[r.Intn(2)]), NoCopy: true},
+		}}
+		item.Build()
+		s = &schema.Struct{UnknownIdx: -1, Fields: []*schema.Field{
+			{ID: 1, Req: schema.Default, T: schema.MapOf(schema.Scalar(schema.String), schema.StructOf(item, r.Bool()))},
+			{ID: 2, Req: schema.Default, T: schema.ListOf(schema.MapOf(schema.Scalar(schema.String), schema.StructOf(item, true)))},
+			{ID: 3, Req: schema.Default, T: schema.MapOf(schema.StructOf(item, true), schema.Scalar([]schema.Kind{schema.String, schema.Binary}[r.Intn(2)]))},
+			{ID: 4, Req: schema.Default, T: schema.ListOf(schema.StructOf(item, r.Bool()))},
+			{ID: 5, Req: schema.Default, T: schema.Scalar(schema.String)},
+		}}
+		s.GoOrder = r.Perm(5)
+		s.Build()
+	} else if idx%4 == 0 {
 		// dense: every string form side by side
 		s = &schema.Struct{UnknownIdx: -1}
 		forms := []struct {
@@ -79,6 +95,13 @@ func runC14(c *harness.Ctx, idx int) {
 	if rerr != nil || info.DupKey {
 		c.Tag("skipped:reference-rejects")
 		return
+	}
+	if r.Bool() && len(msg) > 4 {
+		// history: a decode of the same message cut short (often inside a nocopy value)
+		// fails first; nothing of it may linger in the pooled decoder
+		cut := 1 + r.Intn(len(msg)-1)
+		fDecode(append([]byte(nil), msg[:cut]...), reflect.New(s.Go).Interface())
+		c.Count("failed_priming_decodes", 1)
 	}
 	dst := reflect.New(s.Go)
 	dr := fDecode(g, dst.Interface())
